@@ -28,7 +28,7 @@ ASSUMPTIONS = [
     "compound Select AND the same tree to execute under the shim; KF-iteration-join needs a Join node in an iteration "
     "engine AND the exact documented EngineError",
 ]
-MIN_OBS = {"executed_ok": 500, "sql_executed_ok": 200, "iteration_executed_ok": 200, "with_binary": 150}
+MIN_OBS = {"executed_ok": 500, "multi_engine_executed_ok": 200, "sql_executed_ok": 200, "iteration_executed_ok": 200, "with_binary": 150}
 CASE_TIMEOUT = 60
 
 
@@ -41,6 +41,22 @@ def budget(tier):
 def gen_case(rng, tier):
     engine = rng.choice(["it", "sql", "sql"])
     deep = not (tier == "quick" or rng.random() < 0.5)
+    if rng.random() < 0.15:
+        # trees spanning several engines: "compiled and executed" then means processed by a real
+        # Processor (transfers, materializations) and executed in the final engine
+        cfg = gen.Cfg(engines=("sql", "it", "it2"), ops=("calc", "proj", "sel", "dedup", "sort", "slice", "chain", "join", "mat"), xfer_prob=0.3,
+                      raw_leaves=False, weights={"chain": 1.8, "join": 0.8, "mat": 1.2}, sort_then_slice_prob=0.4, max_depth=3 if deep else 2)
+        g = gen.Gen(rng, cfg)
+        state = g.tree()
+        if rng.random() < 0.5:
+            # a transfer into SQL used directly as a chain operand / as the whole tree
+            st = g.to_engine(state, "sql")
+            other = g.tree(1, "sql", want_cols=st[1]) if rng.random() < 0.6 else st
+            other = g.to_engine(other, "sql")
+            state = ((["chain", st[0], other[0]] if rng.random() < 0.5 else ["chain", other[0], st[0]]), st[1], "sql") if rng.random() < 0.7 else st
+        case = gen.case_from(g, state)
+        case["engine"] = "multi"
+        return case
     if engine == "it":
         cfg = gen.Cfg(engines=("it", "it2"), ops=("calc", "proj", "sel", "dedup", "sort", "slice", "chain", "mat", "join"), xfer_prob=0.05,
                       weights={"chain": 1.5, "join": 0.25, "sort": 1.4, "slice": 1.4}, max_depth=3 if deep else 2)
@@ -121,9 +137,9 @@ def run_case(case):
     c = out["counters"]
     prog, engine = case["prog"], case["engine"]
     label = model.show(prog)
-    db = DB(shim=False) if engine == "sql" else None
+    db = DB(shim=False) if engine == "sql" else (DB(shim=True) if engine == "multi" else None)
     try:
-        engines = make_engines(("sql",) if engine == "sql" else ("it", "it2"))
+        engines = make_engines(("sql",) if engine == "sql" else (("sql", "it", "it2") if engine == "multi" else ("it", "it2")))
         b = Builder(case["leaves"], engines, db)
         try:
             rel = b.build(prog)
@@ -137,7 +153,25 @@ def run_case(case):
         sig = gen.op_signature(prog)
         if "U" in sig or "J" in sig:
             c["with_binary"] = 1
-        if engine == "sql":
+        if engine == "multi":
+            from .. import multi
+
+            try:
+                rows, processed, _ = multi.evaluate(rel, db)
+                rows_again, _, _ = multi.evaluate(processed, db)
+            except Exception as exc:  # noqa: BLE001
+                if multi.prune_order_loss(rel, exc):
+                    out["skip"] = "process_order_loss_known_finding_of_C07"
+                    return out
+                mech = None
+                if has_iteration_join(rel) and isinstance(exc, R.EngineError) and "Joins are not supported by the iteration engine" in str(exc):
+                    mech = "KF-iteration-join"
+                out["violations"].append({"kind": "process_or_execute_raised", "mech": mech, "detail": f"{exc_str(exc)} for {label} tree {short(rel, 400)}"})
+                return out
+            if len(rows) != len(rows_again):
+                out["violations"].append({"kind": "second_evaluation_differs", "detail": label})
+            c["multi_engine_executed_ok"] = 1
+        elif engine == "sql":
             try:
                 ex = engines["sql"].to_executable(rel)
             except Exception as exc:  # noqa: BLE001
